@@ -22,6 +22,26 @@ CHECKS = {
             'Trusted: Lean kernel; CPython re enters as the table of re.match results; file decoding. Two known '
             'findings (trailing empty line normalisation).',
             'DESIGN.md 4 C04'),
+    'C10': ('Lean 4 theorems over a model of the regeneration decision + model/implementation correspondence',
+            'Kernel-checked theorems: over every history of set_regeneration calls the decision for a kind is the last '
+            'setting for it, else the last setting for all kinds, else no; kinds named on a command line (C19 meaning) '
+            'are exactly the kinds regenerated; an assertion that is not selected leaves its reference unchanged; '
+            'regenerate-then-check passes for strings, text files (universal newlines: splitlines(universal s) = '
+            'splitlines s) and binary files for every content and option record (via C04 identical_passes). Tied to '
+            'the code by running op histories on real ReferenceTest objects; file effects and the parquet leg are '
+            'decided by the oracle with directory snapshots.',
+            'Trusted: Lean kernel; OS file semantics; pandas/pyarrow parquet round trip not modelled (one known finding).',
+            'DESIGN.md 4 C10'),
+    'C15': ('Lean 4 theorems over the model of check_strings artefacts + model/implementation correspondence',
+            'Kernel-checked theorems: a passing comparison plans no file; the reconstructed (post-processed) pair has '
+            'equal length and differs exactly on the unexcused pairs, in order, for every input incl. removals; the '
+            'binary first-difference offset is exact; the diff marker is maximal-common-prefix ( left | right ) '
+            'maximal-common-suffix; the raw actual file holds the compared lines joined by newlines. The model (incl. '
+            'files written) is tied to the code by differential runs; existence of the named files, writes outside the '
+            'temporary directory and exact raw content are decided by the oracle with directory snapshots.',
+            'Trusted: Lean kernel; message wording parsed by regex in the harness; file encodings. Two known findings '
+            '(raw actual content).',
+            'DESIGN.md 4 C15'),
     'C16': ('Lean 4 theorems over the regenerated replacement chain + model/implementation correspondence',
             'Kernel-checked theorems: for every pattern of documented CSVW date/time fields joined by documented separators '
             '(any length) the replacement chain extracted from the source yields the field-by-field strptime format; ISO '
